@@ -32,11 +32,15 @@ void cbs1 (mixed a, mixed b) { x1 = a; }
 void cbs2 (mixed a, mixed b) { x2 = a; }
 void cbs3 (mixed a, mixed b) { x3 = a; }
 
+// cbe raises an error (its arguments are popped by the error recovery of call_out()), cbd destructs its own object
+void cbe (mixed a, mixed b) { error ("c06 call_out callback\n"); }
+void cbd (mixed a, mixed b) { destruct (this_object ()); }
+
 // function pointer with one bound argument
 mixed mkfun (mixed a) { return (: cb, a :); }
 
 int docall (int k, int st, mixed a, mixed b) {
-  return call_out (st ? "cbs" + k : "cb", 1, a, b);
+  return call_out (st == 1 ? "cbs" + k : st == 2 ? "cbe" : st == 3 ? "cbd" : "cb", 1, a, b);
 }
 
 int act (string arg, mixed a, mixed b) { return 1; }
